@@ -96,7 +96,9 @@ theorem rsFinish_sh {R : Nat} (cx : Ctx) (hcx : cx.runid = R) (t : Nat) (sc : Sc
   simp only [hst, if_false]
   have e2 : (shCx cx).runid = R + 1 := by simp [shCx, hcx]
   rw [e2, hcx, addKnown_sh, shW_recs, stampRec_sh, setRec_sh]
-  rfl
+  have ecr : (shCx cx).crash = cx.crash := rfl
+  rw [ecr]
+  split <;> rfl
 
 /-- The environment a script's commands run in. -/
 def scriptCx (cx : Ctx) (t : Nat) : Ctx :=
